@@ -133,6 +133,7 @@ pub fn family_main(o: &Opts, prop: &str, seed_tag: u64, default_strata: &str, de
         // rotate the single configuration of a spec-mode case over the list
         let one = [cfgs[n % cfgs.len()].clone()];
         let mut case = make_case(&prop, &cat, &g.q, &g.tags, g.engine_defined, if meta { &cfgs } else { &one }, meta);
+        if !meta { if let Some(t) = case["tags"].as_array_mut() { t.push(json!(format!("layout:{}", one[0].name))); } }
         if big_now { if let Some(t) = case["tags"].as_array_mut() { t.push(json!("data:big")); } }
         if neutral { case["neutral"] = json!(["nonull", "noopt"]); }
         let simple = !g.tags.iter().any(|t| t == "f:join" || t == "f:agg" || t == "f:setop");
